@@ -483,7 +483,17 @@ func (in *inst) observe(res string, ids []int) string {
 	var sb strings.Builder
 	sb.WriteString(res)
 	snap := in.chain.BestSnapshot()
-	fmt.Fprintf(&sb, "/%d@%d/", in.f.idOf[snap.Hash], snap.Height)
+	fmt.Fprintf(&sb, "/%d@%d", in.f.idOf[snap.Hash], snap.Height)
+	// the other fields of the snapshot must describe the same tip: coinbase-only
+	// blocks => total txns = height+1; median time = median of the last 11
+	// timestamps of the tip's own chain (from the factory's tree)
+	if snap.TotalTxns != uint64(snap.Height)+1 {
+		sb.WriteString("!txns")
+	}
+	if tipB := in.f.byID[in.f.idOf[snap.Hash]]; snap.MedianTime.Unix() != in.f.mtp(tipB) {
+		sb.WriteString("!mtp")
+	}
+	sb.WriteByte('/')
 	var chain []chainhash.Hash
 	for h := int32(0); ; h++ {
 		hash, err := in.chain.BlockHashByHeight(h)
